@@ -49,16 +49,49 @@ FORBIDDEN = re.compile(r'\b(sorry|admit|native_decide|bv_decide|implemented_by)\
 sys.path.insert(0, HERE)
 
 
+class _FormatSink:
+    """a logging handler that does what every real handler does first — build the text of the record
+    (`msg % args`, str() of the arguments) — and then drops it.  The package's default logging.conf puts the
+    `deep` logger at DEBUG with a console handler, so in production every log call of the agent formats its
+    message; a sink that never formats would leave that agent code (log calls inside `except` blocks on the
+    containment paths, arguments that are host objects) unexercised.  Errors while formatting are swallowed here
+    exactly as logging.Handler.handleError does (it prints to stderr and carries on)."""
+    level = 10
+
+    def __init__(self):
+        self.records = 0
+        self.format_errors = 0
+
+    def handle(self, record):
+        self.records += 1
+        try:
+            record.getMessage()
+        except Exception:   # noqa: BLE001 - what Handler.handleError absorbs
+            self.format_errors += 1
+        return True
+
+
+LOG_SINK = None
+
+
 def use_repo():
-    """make `import deep` resolve to /repo's working tree and silence the agent's logger."""
+    """make `import deep` resolve to /repo's working tree; the agent's logger is ENABLED at DEBUG (as with the
+    package's own logging.conf) and writes into a formatting sink (VERIF_LOGSINK=0: disabled logger instead)."""
+    global LOG_SINK
     if SRC not in sys.path:
         sys.path.insert(0, SRC)
     import logging
     lg = logging.getLogger('deep')
-    lg.handlers[:] = [logging.NullHandler()]
     lg.propagate = False
     logging.getLogger().handlers[:] = [logging.NullHandler()]
     logging.getLogger().setLevel(logging.CRITICAL + 1)
+    if os.environ.get('VERIF_LOGSINK', '1') == '0':
+        lg.handlers[:] = [logging.NullHandler()]
+        return
+    if LOG_SINK is None:
+        LOG_SINK = _FormatSink()
+    lg.handlers[:] = [LOG_SINK]
+    lg.setLevel(logging.DEBUG)
 
 
 class Infra(Exception):
